@@ -794,7 +794,7 @@ pub fn run_c13(args: &Args, tier: &str, seed: u64) -> Report {
         rep.merge(r);
     }
     rep.extra.insert("grid_size".into(), J::Int(grid.len() as i64));
-    rep.rule = "G5: target URIs assembled from known components: exhaustive grid (4 schemes x 9 hosts (reg-name, IPv4, IPv6 literals) x 8 port forms x 6 user-info forms x 8 paths x 6 queries) plus seeded random URIs; user-info and query carry TAINT markers. Oracle: components of the canonical printer-uri (own splitter, not http::Uri) vs the inputs: IPP scheme, same host, port iff given (numerically equal), same path (''=='/'), no user-info, no query, no marker anywhere in the printer-uri or in to_bytes() of requests from all 9 URI-taking constructors and the raw constructor; idempotence. Strings http::Uri refuses are counted and skipped. Non-trivial = target carrying user-info or a query.".into();
+    rep.rule = "G5: target URIs assembled from known components: exhaustive grid (4 schemes x 9 hosts (reg-name, IPv4, IPv6 literals) x 8 port forms x 8 user-info forms (incl. raw @) x 8 paths x 6 queries) plus seeded random URIs; user-info and query carry TAINT markers. Oracle: components of the canonical printer-uri (own splitter, not http::Uri) vs the inputs: IPP scheme, same host, port iff given (numerically equal), same path (''=='/'), no user-info, no query, no marker anywhere in the printer-uri or in to_bytes() of requests from all 9 URI-taking constructors and the raw constructor; idempotence. Strings http::Uri refuses are counted and skipped. Non-trivial = target carrying user-info or a query.".into();
     if only.is_none() {
         rep.require(rep.sets.get("host_forms").map(|s| s.len()).unwrap_or(0) == 3, "reg-name, IPv4 and IPv6 hosts exercised");
         rep.require(rep.evaluations > grid.len() as u64 / 2, "most grid targets accepted by the URI parser");
